@@ -12,3 +12,4 @@ if [ ! -x "$V/bin/python" ] || ! "$V/bin/python" -c "import z3, typing_extension
   PIP_NO_INDEX=1 "$V/bin/python" -m pip install -q --no-index --find-links /opt/veriftools/wheels z3-solver cvc5 jsonschema >/dev/null
 fi
 "$V/bin/python" -c "import z3; print('z3', z3.get_version_string())"
+"$V/bin/python" -B symx/selftest.py
